@@ -145,6 +145,10 @@ class _TypeQualifier(type):
 
     @_intrinsic
     def __getitem__(cls, Wrapped: type | tuple):
+        assert not hasattr(
+            cls, "_Wrapped"
+        ), f"{cls} is already specialized and cannot be specialized again"
+
         # direction only used for ports
 
         if isinstance(Wrapped, tuple):
